@@ -14,7 +14,7 @@ PROPS="C01 C02 C03 C04 C05 C06 C07 C08 C09 C10 C11 C12 C13 C14 C15 C16 C17 C18 C
 : > "$OUT"
 for s in $SEEDS; do
   git -C "$REPO" checkout -q -- . 
-  if ! git -C "$REPO" apply "seeded/$s/patch.diff"; then echo "$s APPLY-FAILED" >> "$OUT"; continue; fi
+  if ! git -C "$REPO" apply "$ROOT/seeded/$s/patch.diff"; then echo "$s APPLY-FAILED" >> "$OUT"; continue; fi
   line="$s"
   for p in $PROPS; do
     ./check $p quick > /tmp/matrix-$$.out 2>&1; rc=$?
